@@ -294,16 +294,24 @@ class Host(object):
                     res.violate("TOOL-LIST:file", "%s: tool lists file %d as %s, model says %s" % (path, idx, RD.describe(g), RD.describe(f)), k)
 
     # -- expected effect of one save -------------------------------------------------------------
-    def expect_save(self, path, want, append, new_files):
-        """-> (verdict, resulting files) with verdict in must_write / must_refuse / either."""
+    def expect_save(self, path, want, append, new_files, existed=None):
+        """-> (verdict, resulting files) with verdict in must_write / must_refuse / either / unknown.
+        existed: whether the host file was there before the invocation being judged (callers that judge
+        afterwards pass it; otherwise the file is looked at now)."""
         m = self.model.get(path)
-        if m is None or self.w.get(path) is None:
+        if existed is None:
+            existed = self.w.get(path) is not None
+        if not existed:
             files = list(new_files)
             if want == "dsk" and not self.fits(files):
                 return "must_refuse", None
             return "must_write", files
         if not append:
-            return "must_refuse", None
+            return "must_refuse", None      # whatever the file holds
+        if m is None:
+            # the file exists but the model lost track of it (an earlier verdict was 'either', or a violation was
+            # already reported on it): an append onto it cannot be judged either way
+            return "unknown", None
         if m["kind"] == "empty":
             if want == "dsk":
                 return "must_refuse", None
@@ -329,7 +337,7 @@ class Host(object):
     def judge_save(self, r, path, want, append, new_files, before, k, image=None, read_fault=False):
         """Trace invariant + model update for one target of one invocation."""
         res = self.res
-        verdict, files = self.expect_save(path, want, append, new_files)
+        verdict, files = self.expect_save(path, want, append, new_files, existed=before is not None)
         why = "append does not apply" if append else "no --append was given"
         if read_fault:
             verdict, files = "must_refuse", None
@@ -338,6 +346,9 @@ class Host(object):
         after = self.w.get(path)
         events = r.wrote(path)
         wrote = bool(events) or after != before
+        if verdict == "unknown":
+            res.stats["save:not_judged_state_unknown"] += 1
+            return False
         opened_w = any(ev[1] == "OPEN" and ev[2] == path and any(c in ev[3] for c in "wax+") for ev in r.events)
         res.stats["save:%s:%s" % (want, verdict)] += 1
         if "trace" in self.oracles:
@@ -557,8 +568,8 @@ class Host(object):
             exists = path in self.model and (expected_writes > 0 or before is not None)
             if not exists and path in self.model:
                 self.model.pop(path)
-            verdict, result = self.expect_save(path, kind, op.get("append"), files) if (expected_writes or before is not None) else ("must_write", list(files) if kind != "dsk" or self.fits(files) else None)
-            if verdict == "either":
+            verdict, result = self.expect_save(path, kind, op.get("append"), files, existed=True) if (expected_writes or before is not None) else ("must_write", list(files) if kind != "dsk" or self.fits(files) else None)
+            if verdict in ("either", "unknown"):
                 ambiguous = True
                 break
             if verdict == "must_write" and result is not None:
@@ -567,13 +578,15 @@ class Host(object):
                     self.model[path] = {"kind": "bin", "files": [], "writer": "tool", "bytes_expected": b"".join(bytes(f["data"]) for f in result)}
                 else:
                     self.model[path] = {"kind": kind, "files": result, "writer": "tool"}
-        opens = [ev for ev in r.events if ev[1] == "OPEN" and ev[2] == path and any(c in ev[3] for c in "wax+")]
+        # a save reaches the file either through a handle opened for writing or as a scratch file renamed onto it
+        opens = [ev for ev in r.events if (ev[1] == "OPEN" and ev[2] == path and any(c in ev[3] for c in "wax+"))
+                 or (ev[1] == "RENAME" and ev[3] == path)]
         res.stats["probe:same_path_for_several_switches"] += 1
         if ambiguous:
             self.model.pop(path, None)
             return
         if len(opens) > expected_writes:
-            res.violate("SHARED-TARGET-OVERWRITTEN", "%s is named by several switches; the save rules allow %d write(s) but it was opened for writing %d times" % (
+            res.violate("SHARED-TARGET-OVERWRITTEN", "%s is named by several switches; the save rules allow %d write(s) but it was written %d times" % (
                 path, expected_writes, len(opens)), k)
             self.model.pop(path, None)
             return
@@ -710,9 +723,9 @@ class Host(object):
                 if w.get(tp) != tb:
                     res.violate("WROTE-AFTER-FAILURE", "%s was written although an earlier target of the same invocation failed" % tp, k)
                 continue
-            verdict, _ = self.expect_save(tp, tk, op.get("append"), conv)
+            verdict, _ = self.expect_save(tp, tk, op.get("append"), conv, existed=tb is not None)
             self.judge_save(r, tp, tk, op.get("append"), conv, tb, k, read_fault=(fault_path == tp))
-            if verdict == "must_refuse" or (verdict == "either" and w.get(tp) == tb):
+            if verdict == "must_refuse" or (verdict in ("either", "unknown") and w.get(tp) == tb):
                 failed = True
         if also:
             res.stats["probe:several_targets_in_one_invocation"] += 1
